@@ -579,9 +579,13 @@ def run_bins_direct(ctx):
     # the id-coded values are whole numbers: half of the datasets store them in an integer array (a bin mean such as
     # (t1 + t2) / 2 is then not a whole number -- binned values are means, whatever the storage of the input)
     stored = m.reshape(n_obs, n_ch, n_t).astype(np.int64) if rng.integers(2) else m.reshape(n_obs, n_ch, n_t)
+    # the unit and origin of the time axis: quarter seconds from 0, millisecond stamps late in a recording, seconds at
+    # 250 Hz one hour in, nanosecond steps -- bin membership is by value, never "close to"
+    step_t, off_t = [(0.25, 0.0), (0.25, 0.0), (1.0, 250000.0), (0.004, 3600.0), (2e-9, 0.0)][int(rng.integers(5))]
+    tv = lambda t: off_t + t * step_t  # noqa: E731
     ds = TemporalDataset(stored, obs_descriptors={'ouid': list(range(1, n_obs + 1))},
                          channel_descriptors={'cuid': list(range(1, n_ch + 1))},
-                         time_descriptors={'time': np.array([t * 0.25 for t in tu])})
+                         time_descriptors={'time': np.array([tv(t) for t in tu])})
     kind = gen.pick(rng, ['interleaved', 'gaps', 'random'])
     pos = list(range(n_t))
     if kind == 'interleaved':
@@ -593,12 +597,12 @@ def run_bins_direct(ctx):
         cut = int(rng.integers(1, n_t))
         idx_bins = [perm[:cut], perm[cut:]]
     idx_bins = [b for b in idx_bins if b]
-    bins = [np.array([tu[i] * 0.25 for i in b]) for b in idx_bins]
+    bins = [np.array([tv(tu[i]) for i in b]) for b in idx_bins]
     absent = bool(rng.integers(3) == 0)
     if absent:
         # bins defined on a standard grid that is wider than this dataset's time axis (e.g. after subset_time): a bin
         # still averages exactly those of its time points that exist (the label of such a bin is not judged)
-        extra = [(n_t + 1 + k) * 0.25 for k in range(len(bins))]
+        extra = [tv(n_t + 1 + k) for k in range(len(bins))]
         bins = [np.array(list(b) + [extra[k]])[rng.permutation(len(b) + 1)] for k, b in enumerate(bins)]
         kind += '+absent_points'
     sig = dict(op='bin_time', arg='direct_' + kind, temporal=True, shape='small')
@@ -612,7 +616,8 @@ def run_bins_direct(ctx):
         tus = [tu[i] for i in b]
         want = m.reshape(n_obs, n_ch, n_t)[:, :, b].mean(axis=2)
         if got.shape != (n_obs, n_ch, len(idx_bins)) or not np.allclose(got[:, :, bi], want, rtol=1e-13, atol=1e-9) or \
-                (not absent and abs(float(new.time_descriptors['time'][bi]) - float(np.mean(tus)) * 0.25) > 1e-12):
+                (not absent and abs(float(new.time_descriptors['time'][bi]) - float(np.mean([tv(t) for t in tus])))
+                 > 1e-12 * max(1.0, abs(off_t))):
             ctx.fail('bin_time', dict(sig, what='bin_mean'), f'bin {bi} (time uids {tus} of {tu}) is not the mean of exactly '
                      f'its time points', wit())
             return
